@@ -514,7 +514,72 @@ def gen_c19(rng: random.Random, tier: str) -> Plan:
     return {"config": cfg, "ops": ops}
 
 
-GENERATORS = {"C10": gen_c10, "C17": gen_c17, "C19": gen_c19}
+# ---------------------------------------------------------------------------
+# C12: template-built normalised circuits under training histories
+
+
+def gen_c12(rng: random.Random, tier: str) -> Plan:
+    from . import templates_recipes
+
+    cfg: dict[str, Any] = {"semiring": rng.choice(["sum-product", "lse-sum", "lse-sum"]),
+                           "fold": rng.random() < 0.6, "optimize": rng.random() < 0.5}
+    cfg["checks"] = []
+    cfg["faults"] = False
+    cfg["batches"] = [rng.choice([3, 5]), 1]
+    cfg["check_subset"] = 2
+    if rng.random() < 0.4:
+        r0 = recipes.gen_rg_circuit(rng, monotonic=True, normalized=True, max_vars=5,
+                                    kinds=["categorical", "categorical", "binomial", "gaussian",
+                                           "embedding"])
+        nv = recipes.rg_num_vars(r0["rg"])
+        gaussian = r0["input"]["type"] == "gaussian"
+        integrable = r0["input"]["type"] != "binomial"
+    else:
+        r0 = templates_recipes.gen_template(rng)
+        nv = r0["nv"]
+        gaussian = r0["domain"][0] == "real"
+        integrable = True
+    ops: list[dict[str, Any]] = []
+    ops.append({"op": "compile_base", "name": "b0", "recipe": r0, "seed": _seed(rng),
+                "opt": {"kind": "sgd", "lr": rng.choice([0.1, 0.5, 1.0]), "momentum": 0.0}
+                if rng.random() < 0.5 else {"kind": "adam", "lr": rng.choice([0.05, 0.5])}})
+    names = ["b0"]
+    if integrable and rng.random() < 0.75:
+        ops.append({"op": "derive", "name": "d0", "seed": _seed(rng),
+                    "spec": {"opr": "integrate", "src": ["b0"], "scope": None,
+                             "via": rng.choice(["symbolic", "pipeline"])}})
+        names.append("d0")
+    late_integrate = integrable and "d0" not in names
+    n_ops = rng.randint(5, 11) if tier == "quick" else rng.randint(8, 24)
+    scales = [0.5, 1.0, 3.0] if gaussian else [0.5, 2.0, 5.0, 10.0]
+    for _ in range(n_ops):
+        r = rng.random()
+        if r < 0.35:
+            ops.append({"op": "optim", "base": "b0", "via": "b0", "steps": rng.randint(1, 4),
+                        "loss": "nll", "seed": _seed(rng)})
+        elif r < 0.65:
+            ops.append({"op": "perturb", "base": "b0", "mode": rng.choice(["add", "copy"]),
+                        "scale": rng.choice(scales), "seed": _seed(rng)})
+        elif r < 0.75:
+            ops.append({"op": "reset", "target": rng.choice(names), "seed": _seed(rng)})
+        elif r < 0.82:
+            ops.append({"op": "save", "target": "b0", "slot": f"s{rng.randrange(2)}"})
+        elif r < 0.89:
+            ops.append({"op": "load", "target": "b0", "slot": f"s{rng.randrange(2)}"})
+        elif r < 0.93 and late_integrate:
+            late_integrate = False
+            ops.append({"op": "derive", "name": "d0", "seed": _seed(rng),
+                        "spec": {"opr": "integrate", "src": ["b0"], "scope": None, "via": "symbolic"}})
+            names.append("d0")
+        elif r < 0.97:
+            ops.append({"op": "restart", "mode": "same", "seed": _seed(rng),
+                        "hash_seed": rng.getrandbits(60)})
+        else:
+            ops.append({"op": "eval", "target": "b0", "batch": rng.choice([1, 2, 7]), "seed": _seed(rng)})
+    return {"config": cfg, "ops": ops}
+
+
+GENERATORS = {"C10": gen_c10, "C12": gen_c12, "C17": gen_c17, "C19": gen_c19}
 
 
 def generate(prop: str, run_seed: int, tier: str) -> Plan:
